@@ -47,13 +47,7 @@ def applyAllocs (pop : List Miner) (a : List (String × Rat)) : List Miner :=
 
 def dupIds (l : List String) : Bool := l.eraseDups.length != l.length
 
-def mon (st : St) (op : List String) (outs : List (List String)) : St × List String :=
-  match op with
-  | ["miner", id, hr, vet, disc, tasks] =>
-    let ts := parseTasks tasks
-    ({ st with pop := st.pop ++ [{ id := id, hr := (parseInt hr : Rat), vetting := vet = "1", disconnecting := disc = "1",
-                                   tasks := ts.length, scheduled := sumR ts }] }, [])
-  | ["full", req, dur] =>
+def monFull (st : St) (req dur : String) (outs : List (List String)) : St × List String :=
     let req : Rat := (parseInt req : Rat); let dur := parseInt dur
     let impl := implAllocs outs
     let ids := implIds outs
@@ -81,6 +75,14 @@ def mon (st : St) (op : List String) (outs : List (List String)) : St × List St
        | some r => if near (req - sumR rates) r then [] else [s!"PROP remainder {showRat r} is not request minus handed-out rates {showRat (req - sumR rates)}"]
        | none => [])
     ({ st with pop := applyAllocs st.pop impl }, prop ++ corr)
+
+def mon (st : St) (op : List String) (outs : List (List String)) : St × List String :=
+  match op with
+  | ["miner", id, hr, vet, disc, tasks] =>
+    let ts := parseTasks tasks
+    ({ st with pop := st.pop ++ [{ id := id, hr := (parseInt hr : Rat), vetting := vet = "1", disconnecting := disc = "1",
+                                   tasks := ts.length, scheduled := sumR ts }] }, [])
+  | ["full", req, dur] => monFull st req dur outs
   | ["partial", need, rem] =>
     let need : Rat := (parseInt need : Rat); let rem := parseInt rem
     let impl := implAllocs outs
@@ -102,6 +104,17 @@ def mon (st : St) (op : List String) (outs : List (List String)) : St × List St
       (if tot > need * (1 + 1 / 1000000000) + 1 / 1000000 ∧ need ≥ 0 then [s!"PROP partial allocation {showRat tot} exceeds the requested work {showRat need}"] else []) ++
       (if dupIds (impl.map (·.1)) then ["PROP a miner received more than one task in one call"] else [])
     ({ st with pop := applyAllocs st.pop impl }, prop ++ corr)
+  | ["fullr", req, dur, victim, newhr] =>
+    -- a miner's measured rate moves between the allocator's snapshot and the hand-out: the call is judged as a `full` call on
+    -- the snapshot (what fits, what is accounted, how much work each task carries); later calls see the new rate
+    let r := monFull st req dur outs
+    let fired := outs.any (· == ["fired", "1"])
+    let reqR : Rat := (parseInt req : Rat)
+    let handed := sumR ((implAllocs outs).map (·.2))
+    let cap := ghsToJobSubmittedV2 reqR (parseInt dur)
+    let over := if reqR ≥ 0 ∧ handed > cap * (1 + 1 / 1000000000) + 1 then
+      [s!"PROP the work handed out ({showRat handed}) is more than the requested hashrate amounts to over the duration ({showRat cap})"] else []
+    ({ r.1 with pop := r.1.pop.map fun m => if m.id = victim ∧ fired then { m with hr := (parseInt newhr : Rat) } else m }, over ++ r.2)
   | [kind, _, _, victim] =>
     -- a miner that starts disconnecting while tasks are being handed out (after the first hand-out)
     -- must not receive one afterwards.  Judged by the monitor only.
